@@ -41,6 +41,7 @@ def run(ctx):
     ctx.rule("R03.7", "axis -> percentage reference in render")
     ctx.rule("R03.8", "shape dispatch")
     ctx.rule("R03.9", "nested svg origin reaches the transform with and without a viewBox")
+    ctx.rule("R03.10", "viewport state is saved and restored with the element context")
     fn = ctx.fn("SVG.parse", "R03.1")
     loop = [s for s in fn.body if isinstance(s, ast.For)]
     ctx.need(len(loop) == 1, "R03.1", "event loop not found")
@@ -63,6 +64,37 @@ def run(ctx):
     axis_reference(ctx)
     dispatch(ctx, start)
     svg_origin(ctx, start)
+    viewport_state(ctx, fn, start, end)
+
+
+def viewport_state(ctx, fn, start, end):
+    """Locals that a start event re-binds for its subtree and that later elements consume (the viewport width/height used
+    for percentages) are loop-carried state: they must travel on the context stack, pushed at start and restored at end,
+    like the inherited values.  Otherwise siblings after a nested svg resolve percentages against the inner viewport."""
+    params = [a.arg for a in fn.args.args]
+    rebound = set()
+    for s in stmts_in(start):
+        if isinstance(s, ast.Assign):
+            for t in s.targets:
+                for tt in (t.elts if isinstance(t, ast.Tuple) else [t]):
+                    if isinstance(tt, ast.Name) and tt.id in ("width", "height") and tt.id in params:
+                        rebound.add(tt.id)
+    ctx.need(rebound, "R03.10", "viewport size re-binding not found in the start branch")
+    pushes = [s for s in stmts_in(start) if isinstance(s, ast.Expr) and ast.unparse(s.value).startswith("stack.append(")]
+    pops = [s for s in stmts_in(end) if isinstance(s, ast.Assign) and "stack.pop()" in ast.unparse(s.value)]
+    pushed = set()
+    for p in pushes:
+        arg = p.value.args[0]
+        pushed |= {e.id for e in (arg.elts if isinstance(arg, ast.Tuple) else [arg]) if isinstance(e, ast.Name)}
+    ok_push = rebound <= pushed
+    ok_pop = bool(pops) and all(rebound <= {e.id for e in (p.targets[0].elts if isinstance(p.targets[0], ast.Tuple) else [p.targets[0]]) if isinstance(e, ast.Name)} for p in pops)
+    ctx.ob("R03.10", "SVG.parse[viewport size saved/restored]", ok_push and ok_pop, "re-bound in start: %s; pushed: %s; every pop restores them: %s" % (sorted(rebound), sorted(pushed), ok_pop), start[0].lineno,
+           "percentages refer to the NEAREST enclosing viewport: the size set by a nested svg must not outlive its subtree")
+    # push and pop shapes agree
+    shapes = {len(p.value.args[0].elts) if isinstance(p.value.args[0], ast.Tuple) else 1 for p in pushes} | {len(p.targets[0].elts) if isinstance(p.targets[0], ast.Tuple) else 1 for p in pops}
+    repl = [s for s in stmts_in(start) if isinstance(s, ast.Assign) and ast.unparse(s.targets[0]) == "stack[-1]"]
+    shapes |= {len(r.value.elts) if isinstance(r.value, ast.Tuple) else 1 for r in repl}
+    ctx.ob("R03.10", "SVG.parse[stack entry shape]", len(shapes) == 1, "entry sizes %s" % sorted(shapes), start[0].lineno, "every push, replacement and pop uses the same tuple shape")
 
 
 def svg_origin(ctx, start):
@@ -193,16 +225,34 @@ def keys_read(ctx, cname, seen=None):
     return out
 
 
-def deleted_keys(ctx, stmts):
+def deleted_keys(ctx, stmts, conditional=None):
+    """Keys removed from the inherited dictionary.  A deletion counts only when it is guarded by nothing but the presence
+    test of its own key (a deletion that depends on another key or flag does not always happen); others are collected in
+    `conditional`."""
     out = set()
+    top = list(stmts)
     for s in stmts_in(stmts):
         if isinstance(s, ast.Delete):
             for t in s.targets:
                 if isinstance(t, ast.Subscript) and ast.unparse(t.value) == "values":
                     try:
-                        out.add(ctx.m.const(t.slice))
+                        k = ctx.m.const(t.slice)
                     except NotConst:
-                        pass
+                        continue
+                    own = True
+                    p = getattr(s, "_parent", None)
+                    while p is not None and not any(p is x for x in top) and not isinstance(p, ast.FunctionDef):
+                        if isinstance(p, (ast.If, ast.For, ast.While, ast.Try)):
+                            if not (isinstance(p, ast.If) and ast.unparse(p.test) == "%s in values" % ast.unparse(t.slice)):
+                                own = False
+                        p = getattr(p, "_parent", None)
+                    if p is not None and isinstance(p, ast.If) and any(p is x for x in top):
+                        if ast.unparse(p.test) != "%s in values" % ast.unparse(t.slice):
+                            own = False
+                    if own:
+                        out.add(k)
+                    elif conditional is not None:
+                        conditional.add(k)
     return out
 
 
@@ -213,9 +263,10 @@ def non_propagation(ctx, fn, start):
         if isinstance(s, ast.If) and "SVG_NAME_TAG == tag" in ast.unparse(s.test):
             tag_chain = s
     ctx.need(tag_chain is not None, "R03.2", "tag dispatch not found")
-    generic = deleted_keys(ctx, [s for s in start if s is not tag_chain])
+    cond = set()
+    generic = deleted_keys(ctx, [s for s in start if s is not tag_chain], cond)
     want_generic = {"preserveAspectRatio", "viewBox", "id", "class", "clip-path"}
-    ctx.ob("R03.2", "SVG.parse[element-own keys never inherited]", want_generic <= generic, "deleted for every element: %s" % sorted(generic), fn.lineno,
+    ctx.ob("R03.2", "SVG.parse[element-own keys never inherited]", want_generic <= generic, "deleted for every element: %s; deleted only under another condition: %s" % (sorted(generic), sorted(cond)), fn.lineno,
            "viewBox, preserveAspectRatio, id, class and clip-path describe one element only")
     child_geom = set()
     for c in SHAPE_TAGS.values():
